@@ -166,6 +166,23 @@ impl Crate {
                 let tr = im.trait_.as_ref().map(|(_, p, _)| trait_name(p)).unwrap_or_default();
                 for ii in &im.items {
                     if let ImplItem::Fn(f) = ii {
+                        // an inherent method named like a method of a std trait the type implements wins over the trait
+                        // method at every unchanged call site — inside the crate and in its users (`r.to_string()`,
+                        // `a.cmp(&b)`, `v.clone()`, `"..".parse()` goes through `from_str`)
+                        if tr.is_empty() {
+                            let n = f.sig.ident.to_string();
+                            if matches!(
+                                n.as_str(),
+                                "to_string" | "fmt" | "eq" | "ne" | "cmp" | "partial_cmp" | "lt" | "le" | "gt" | "ge" | "max" | "min" | "clamp"
+                                    | "hash" | "clone" | "clone_from" | "from" | "into" | "try_from" | "try_into" | "from_str" | "default"
+                                    | "to_owned" | "borrow" | "as_ref" | "deref" | "serialize" | "deserialize" | "source" | "description"
+                            ) {
+                                self.global_problems.push(format!(
+                                    "inherent method `{}::{}` shadows the std trait method of that name at every call site",
+                                    ty, n
+                                ));
+                            }
+                        }
                         self.impl_fns.entry((ty.clone(), tr.clone())).or_default().push(f.sig.ident.to_string());
                         self.add_fn(file, format!("{}::{}", ty, f.sig.ident), Some(ty.clone()), tr.clone(), &f.sig, &f.block);
                     }
